@@ -341,7 +341,7 @@ class FiniteFam:
     LEVEL = "exploration"
     ASSUMPTIONS = ["argument classes: huge 1E308, tiny 1E-308, -1E308, 0, 1, -1, 0.5, empty cell, TRUE, text, the texts \"1E308\" and \"inf\", #DIV/0!; vectors of length 0-2 (thorough: 0-3); shapes: literal arguments, arguments by cell reference, two-element array literals, two-cell ranges, CSE array formula, dynamic-array spill",
                    "each vector x shape is crossed with every built-in function (Function::into_iter(), hook H2) and with every binary and unary operator; all cells are scanned afterwards through the public workbook value for NaN and infinities",
-                   "11 functions whose running time grows with the VALUE of an argument (FACT, FACTDOUBLE, COMBIN, COMBINA, PERMUT, MULTINOMIAL, REPT, BESSELJ, BESSELK, TINV, T.INV.2T) do not return for huge arguments and are left out (thorough tier re-probes the list in child processes); a batch that does not finish within 20 s is skipped and counted",
+                   "11 functions whose running time grows with the VALUE of an argument (FACT, FACTDOUBLE, COMBIN, COMBINA, PERMUT, MULTINOMIAL, REPT, BESSELJ, BESSELK, TINV, T.INV.2T) do not return for huge arguments and are left out (thorough tier re-probes the list in child processes); a batch that does not finish within 60 s is skipped and counted",
                    "a panic during evaluation is reported under this property (an overflow must become an error value)"]
 
     @staticmethod
@@ -399,7 +399,7 @@ class XlsxFaultsFam:
     LEVEL = "fault_enumeration"
     ASSUMPTIONS = ["base packages: one exported by the harness from a feature-rich workbook (formulas, arrays, styles, borders, sizes, hidden rows, frozen panes, several sheets with colour/hidden state, global and local names, a hyperlink, a conditional format) and eight .xlsx files of the repository's own test data (one with cell comments, one with a custom theme)",
                    "the vocabulary (parts, element and attribute counts) is read from these packages; XlsxFaults.tla enumerates every single fault over at most 12 (thorough 40) positions per part, spread over the part: drop / duplicate / empty an element, drop an attribute, replace its value by one of 8 garbage classes (empty, negative, huge, letters, fraction, oversized range, an 8-byte string with multi-byte characters, a 1-character string), move an index-like attribute (an integer below 64; at most 3 occurrences of one attribute name per part) up by 1..12 so that it lands one past the end of what it indexes, truncate a part at 1/16, 8/16, 15/16, drop a part, truncate the zip at k/16, flip a byte in each sixteenth; thorough adds pairs of part-level faults and pairs of structural faults on different parts",
-                   "each damaged package goes through load_from_xlsx_bytes, Model::from_workbook and evaluate under catch_unwind; a call that does not return within 6 s is a timeout; a process abort is attributed to the slice of 64 plans being processed",
+                   "each damaged package goes through load_from_xlsx_bytes, Model::from_workbook and evaluate under catch_unwind; a call that does not return within 60 s is a timeout; a process abort is attributed to the slice of 64 plans being processed",
                    "outcome must be ok or err; which one is not judged"]
 
     @staticmethod
@@ -445,7 +445,7 @@ class XlsxFaultsFam:
                 total["timeouts"] += 1
                 sig = "C25|timeout|" + "+".join(f["k"] for f in t["case"]["faults"])
                 if sig not in seen:
-                    vv = {"signature": sig, "what": f"import did not return within 6 s for fault plan {json.dumps(t['case'])[:300]}", "count": 1,
+                    vv = {"signature": sig, "what": f"import did not return within 60 s for fault plan {json.dumps(t['case'])[:300]}", "count": 1,
                           "payload": {"property": "C25", "signature": sig, "case": t["case"]}}
                     seen[sig] = vv
                     res["violations"]["C25"].append(vv)
@@ -484,7 +484,7 @@ class Tokens:
     ASSUMPTIONS = ["inputs: every sequence of up to 2 (quick: plus a seeded sample of 12 000 sequences of 3; thorough: all of 3) of the 60 token spellings of Tokens.tla",
                    "APIs: Parser::parse in A1 and R1C1 mode, Model::set_user_input as formula and as text (+ evaluate, formatted value, content), Model::formula_completion at every cursor, Model::cycle_reference at every cursor and prefix selection, format_number with the text as format code over 11 numbers incl. NaN and infinities; 3 language/locale pairs (thorough: all 30)",
                    "formulas containing ':' are parsed and stored but not evaluated: a range over whole columns evaluates to a million-cell array per column and does not finish in reasonable time or memory (see DESIGN.md, finding F-C11-1)",
-                   "a call that does not return within 8 s is reported as a timeout; an abort of the process is attributed to the slice of 64 cases being processed"]
+                   "a call that does not return within 60 s is reported as a timeout; an abort of the process is attributed to the slice of 64 cases being processed"]
 
     @staticmethod
     def run(d, tier, seed):
@@ -529,7 +529,7 @@ class Tokens:
                 total["timeouts"] += 1
                 sig = f"C11|timeout|{t.get('call', '')}"
                 if sig not in seen:
-                    v = {"signature": sig, "what": f"{t.get('call')} did not return within 8 s on {t.get('text')!r} ({t.get('lang')}/{t.get('locale')})", "count": 1,
+                    v = {"signature": sig, "what": f"{t.get('call')} did not return within 60 s on {t.get('text')!r} ({t.get('lang')}/{t.get('locale')})", "count": 1,
                          "payload": {"property": "C11", "signature": sig, "case": t}}
                     seen[sig] = v
                     res["violations"]["C11"].append(v)
